@@ -1,6 +1,8 @@
 (* AssignProofs.v -- C06: py7zr's entry -> (folder, offset, size, CRC, id, kind) assignment
    (Assign.v, impl_plans) agrees with what the format defines (Spec.v, spec_plans) on every
    structurally valid header that satisfies `nice`; each clause of `nice` is necessary.
+   The kind of an entry without data (directory / empty file) is the format's for EVERY attribute word,
+   defined or not (assign_dir_without_attribute_conforms, assign_emptyfile_with_dir_attribute_conforms).
    The header may carry its SubStreamsInfo (embed, assign_conforms), omit it (embed_nosub,
    assign_conforms_no_substreams) or have no MainStreamsInfo at all (embed_nostreams). *)
 From Coq Require Import ZifyBool.
@@ -33,9 +35,11 @@ Definition embed (h : sheader) : header :=
 (* the conditions under which py7zr conforms, stated on the format's own reading (spec_plans) *)
 Definition attr_dir (a : option Z) : bool :=
   match a with Some v => negb (Z.land v 16 =? 0) | None => false end.
-(* an entry is a directory by the format (empty stream, EmptyFile bit clear) iff its attributes
-   are defined and carry FILE_ATTRIBUTE_DIRECTORY *)
-Definition kind_consistent (p : plan) : bool := Bool.eqb (pl_kind p =? 2) (attr_dir (pl_attr p)).
+(* an entry WITH data does not carry FILE_ATTRIBUTE_DIRECTORY (py7zr takes such an entry for a directory).
+   Entries without data are no longer constrained: since the repair of ArchiveFile.is_directory their kind is
+   read from the EmptyFile bit as the format says, whatever the attribute word holds or if there is none
+   (before it, "directory <-> attributes defined with the directory bit" had to be assumed of every entry) *)
+Definition kind_consistent (p : plan) : bool := negb ((pl_kind p =? 0) && attr_dir (pl_attr p)).
 (* NumUnpackStream values are counts (the NUMBER reader cannot yield a negative one) *)
 Definition nums_nonneg (h : sheader) : bool := forallb (fun n => 0 <=? n) (sh_nums h).
 Definition kinds_consistent (h : sheader) : bool := forallb kind_consistent (spec_plans h).
@@ -87,8 +91,8 @@ Proof. destruct c; reflexivity. Qed.
 Lemma attr_is_dir_flat a : attr_is_dir a = attr_dir (flat_opt a).
 Proof. destruct a as [[v|]|]; reflexivity. Qed.
 
-Lemma plan_agrees_refl n k fo off sz c mt at_ i :
-  plan_agrees i (mkPlan n k fo off sz c mt at_) (mkIPlan n k fo off sz c mt at_ i) = true.
+Lemma plan_agrees_refl n k fo off sz c mt at_ i es ef :
+  plan_agrees i (mkPlan n k fo off sz c mt at_) (mkIPlan n k fo off sz c mt at_ i es ef) = true.
 Proof.
   unfold plan_agrees; cbn [pl_name pl_kind pl_folder pl_offset pl_size pl_crc pl_mtime pl_attr
                            ip_name ip_kind ip_folder ip_offset ip_size ip_crc ip_mtime ip_attr ip_id].
@@ -119,12 +123,12 @@ Proof.
       * apply IH2.
 Qed.
 
-Lemma assign_loop_cons multi e r fid nums sizes dd dg folder0 outstreams input fstats nfolders :
-  assign_loop multi (e :: r) fid nums sizes dd dg folder0 outstreams input fstats nfolders =
-  let kind_of := fun (empty : bool) => if attr_is_dir (e_attr e) then 2 else if empty then 1 else 0 in
+Lemma assign_loop_cons multi e r efl fid nums sizes dd dg folder0 outstreams input fstats nfolders :
+  assign_loop multi (e :: r) efl fid nums sizes dd dg folder0 outstreams input fstats nfolders =
   if e_emptystream e then
-    do rest <- assign_loop multi r (fid + 1) nums sizes dd dg folder0 outstreams input fstats nfolders;
-    Ok (mkIPlan (e_name e) (kind_of true) (-1) 0 0 None (flat_opt (e_mtime e)) (flat_opt (e_attr e)) fid :: rest)
+    do rest <- assign_loop multi r (tl efl) (fid + 1) nums sizes dd dg folder0 outstreams input fstats nfolders;
+    Ok (mkIPlan (e_name e) (if hd false efl then 1 else 2) (-1) 0 0 None (flat_opt (e_mtime e)) (flat_opt (e_attr e)) fid
+                true (hd false efl) :: rest)
   else
     let folder := if input =? 0 then skip_zero (length nums) nums folder0 else folder0 in
     if (folder <? 0) || (nfolders <=? folder) then Err EOther else
@@ -133,12 +137,12 @@ Lemma assign_loop_cons multi e r fid nums sizes dd dg folder0 outstreams input f
     do d <- nthZ dd outstreams;
     do g <- nthZ dg outstreams;
     let '(fstats', old) := upd_fstat fstats folder fid size in
-    let p := mkIPlan (e_name e) (kind_of false) folder (fs_bytes old) size (if d then Some g else None)
-                     (flat_opt (e_mtime e)) (flat_opt (e_attr e)) fid in
+    let p := mkIPlan (e_name e) (if attr_is_dir (e_attr e) then 2 else 0) folder (fs_bytes old) size
+                     (if d then Some g else None) (flat_opt (e_mtime e)) (flat_opt (e_attr e)) fid false false in
     let input' := input + 1 in
     do rest <- (if n <=? input'
-                then assign_loop multi r (fid + 1) nums sizes dd dg (folder + 1) (outstreams + 1) 0 fstats' nfolders
-                else assign_loop multi r (fid + 1) nums sizes dd dg folder (outstreams + 1) input' fstats' nfolders);
+                then assign_loop multi r efl (fid + 1) nums sizes dd dg (folder + 1) (outstreams + 1) 0 fstats' nfolders
+                else assign_loop multi r efl (fid + 1) nums sizes dd dg folder (outstreams + 1) input' fstats' nfolders);
     Ok (p :: rest).
 Proof. reflexivity. Qed.
 
@@ -223,7 +227,7 @@ Lemma loop_ok : forall files fid folder outstreams input bytes fstats ef R,
   length (filter is_data files) = length R ->
   Finv fstats folder input bytes ->
   forallb kind_consistent (s_plans files ef R) = true ->
-  exists ps, assign_loop multi files fid nums sizes (map is_some crcs) (map or0 crcs)
+  exists ps, assign_loop multi files ef fid nums sizes (map is_some crcs) (map or0 crcs)
                          folder outstreams input fstats nf = Ok ps /\
              plans_agree fid (s_plans files ef R) ps = true.
 Proof.
@@ -238,11 +242,8 @@ Proof.
       destruct (IH (fid + 1) folder outstreams input bytes fstats (tl ef) R HT HL HF HK2) as [ps [E1 E2]].
       rewrite E1. cbn [bind]. eexists. split; [reflexivity|].
       simpl plans_agree. rewrite E2, Bool.andb_true_r.
-      unfold kind_consistent in HK1. cbn [pl_kind pl_attr] in HK1.
-      rewrite attr_is_dir_flat.
-      replace (if attr_dir (flat_opt (e_attr e)) then 2 else 1) with (if hd false ef then 1 else 2).
-      { apply plan_agrees_refl. }
-      destruct (hd false ef), (attr_dir (flat_opt (e_attr e))); simpl in HK1; congruence.
+      (* the kind is the format's: EmptyFile bit set -> empty file, clear -> directory *)
+      apply plan_agrees_refl.
     + (* data entry *)
       simpl negb in HL. cbn iota in HL.
       destruct R as [|[[[fi off] sz] c] R']; [discriminate HL|].
@@ -487,10 +488,73 @@ Proof.
   - unfold Finv. simpl. split; reflexivity.
   - exact HK.
 Qed.
-(* py7zr's assignment does not look at the EmptyFile vector at all *)
-Lemma impl_plans_ignores_emptyfiles st fl ef ef' :
-  impl_plans (mkHeader st fl ef) = impl_plans (mkHeader st fl ef').
-Proof. reflexivity. Qed.
+
+(* ---- the EmptyFile vector: consulted for the kind of the entries without data, one bit per such entry in
+   order, `next(flags, False)`: a vector that is too short stands for one padded with False, surplus bits are
+   never read (this is how the vector is written back, Header.write_files / HeaderProofs.norm_emptyfiles) ---- *)
+Lemma nempty_cons e r : nempty (e :: r) = ((if e_emptystream e then 1 else 0) + nempty r)%nat.
+Proof. unfold nempty. simpl. destruct (e_emptystream e); reflexivity. Qed.
+Lemma nempty_app a b : nempty (a ++ b) = (nempty a + nempty b)%nat.
+Proof. unfold nempty. rewrite filter_app, app_length. reflexivity. Qed.
+Lemma count_true_nempty files : count_true (map e_emptystream files) = Z.of_nat (nempty files).
+Proof.
+  unfold count_true, nempty, zlen. f_equal.
+  induction files as [|e r IH]; [reflexivity|]. simpl. destruct (e_emptystream e); simpl; rewrite IH; reflexivity.
+Qed.
+
+Lemma hd_pad (ef : list bool) n k : (1 <= n)%nat -> (n <= k)%nat ->
+  hd false (firstn n (ef ++ repeat false k)) = hd false ef /\
+  tl (firstn n (ef ++ repeat false k)) = firstn (n - 1) (tl ef ++ repeat false (k - 1)).
+Proof.
+  intros Hn Hk. destruct n as [|n]; [lia|]. destruct ef as [|b ef].
+  - destruct k as [|k]; [lia|]. simpl. rewrite !Nat.sub_0_r. split; reflexivity.
+  - simpl. rewrite Nat.sub_0_r. split; [reflexivity|]. destruct k as [|k]; [lia|].
+    cbn [repeat]. rewrite Nat.sub_succ, Nat.sub_0_r.
+    (* one False more at the end is beyond the first n elements *)
+    replace (false :: repeat false k) with (repeat false k ++ [false]).
+    2:{ clear. induction k as [|k IH]; [reflexivity|]. simpl. rewrite IH. reflexivity. }
+    rewrite app_assoc, firstn_app.
+    replace (n - length (ef ++ repeat false k))%nat with 0%nat by (rewrite app_length, repeat_length; lia).
+    simpl. rewrite app_nil_r. reflexivity.
+Qed.
+
+Lemma assign_loop_ef_pad multi nums sizes dd dg nf : forall files ef n k fid folder outstreams input fstats,
+  (nempty files <= n)%nat -> (n <= k)%nat ->
+  assign_loop multi files (firstn n (ef ++ repeat false k)) fid nums sizes dd dg folder outstreams input fstats nf =
+  assign_loop multi files ef fid nums sizes dd dg folder outstreams input fstats nf.
+Proof.
+  induction files as [|e r IH]; intros ef n k fid folder outstreams input fstats Hn Hk; [reflexivity|].
+  rewrite !assign_loop_cons. cbn zeta. rewrite nempty_cons in Hn.
+  destruct (e_emptystream e).
+  - destruct (hd_pad ef n k ltac:(lia) Hk) as [-> ->]. rewrite IH by lia. reflexivity.
+  - destruct (_ || _); [reflexivity|].
+    destruct (nthZ nums _) as [x|]; [|reflexivity]. cbn [bind].
+    destruct (nthZ sizes outstreams) as [size|]; [|reflexivity]. cbn [bind].
+    destruct (nthZ dd outstreams) as [d|]; [|reflexivity]. cbn [bind].
+    destruct (nthZ dg outstreams) as [g|]; [|reflexivity]. cbn [bind].
+    destruct (upd_fstat _ _ _ _) as [f1 old].
+    destruct (x <=? input + 1); rewrite IH by lia; reflexivity.
+Qed.
+Lemma nostream_plans_ef_pad : forall files ef n k fid, (nempty files <= n)%nat -> (n <= k)%nat ->
+  nostream_plans files (firstn n (ef ++ repeat false k)) fid = nostream_plans files ef fid.
+Proof.
+  induction files as [|e r IH]; intros ef n k fid Hn Hk; [reflexivity|].
+  cbn [nostream_plans]. rewrite nempty_cons in Hn. destruct (e_emptystream e).
+  - destruct (hd_pad ef n k ltac:(lia) Hk) as [-> ->]. rewrite IH by lia. reflexivity.
+  - rewrite IH by lia. reflexivity.
+Qed.
+
+(* the assignment reads the EmptyFile vector only through the bit of each entry without data *)
+Lemma impl_plans_emptyfiles_aligned st fl ef :
+  let nes := Z.to_nat (count_true (map e_emptystream fl)) in
+  impl_plans (mkHeader st (Some fl) (firstn nes (ef ++ repeat false nes))) = impl_plans (mkHeader st (Some fl) ef).
+Proof.
+  cbv zeta. rewrite count_true_nempty, Nat2Z.id. unfold impl_plans. cbn [h_files h_streams h_emptyfiles].
+  destruct st as [st|]; [|rewrite nostream_plans_ef_pad by lia; reflexivity].
+  destruct (si_folders st) as [folders|]; [|reflexivity]. destruct (si_pack st); [|reflexivity].
+  destruct (match s_sizes _ with Some sz => Ok sz | None => _ end) as [sizes|]; [|reflexivity].
+  cbn [bind]. apply assign_loop_ef_pad; lia.
+Qed.
 
 (* ------------------------------------------------------------------ *)
 (* C. every member is delivered once, from the right position          *)
@@ -870,22 +934,14 @@ Qed.
 Definition embed_nostreams (h : sheader) : header := mkHeader None (Some (sh_files h)) (sh_emptyfile h).
 
 Lemma nostreams_agree : forall files i ef,
-  filter is_data files = [] -> forallb kind_consistent (s_plans files ef []) = true ->
-  plans_agree i (s_plans files ef [])
-    (map (fun '(i, e) =>
-            mkIPlan (e_name e) (if attr_is_dir (e_attr e) then 2 else if e_emptystream e then 1 else 0)
-                    (-1) 0 0 None (flat_opt (e_mtime e)) (flat_opt (e_attr e)) i)
-         (enumerate_from i files)) = true.
+  filter is_data files = [] ->
+  plans_agree i (s_plans files ef []) (nostream_plans files ef i) = true.
 Proof.
-  induction files as [|e r IH]; intros i ef HD HK; [reflexivity|].
+  induction files as [|e r IH]; intros i ef HD; [reflexivity|].
   rewrite s_plans_cons in *. unfold is_data in HD. simpl filter in HD. fold is_data in HD.
   destruct (e_emptystream e) eqn:Ee; [|discriminate HD]. simpl in HD.
-  simpl forallb in HK. apply andb_prop in HK. destruct HK as [HK1 HK2].
-  simpl. rewrite Ee, (IH (i + 1) (tl ef) HD HK2), Bool.andb_true_r.
-  unfold kind_consistent in HK1. cbn [pl_kind pl_attr] in HK1. rewrite attr_is_dir_flat.
-  replace (if attr_dir (flat_opt (e_attr e)) then 2 else 1) with (if hd false ef then 1 else 2).
-  { apply plan_agrees_refl. }
-  destruct (hd false ef), (attr_dir (flat_opt (e_attr e))); simpl in HK1; congruence.
+  cbn [nostream_plans]. unfold entry_kind. rewrite Ee. simpl plans_agree.
+  rewrite (IH (i + 1) (tl ef) HD), Bool.andb_true_r. apply plan_agrees_refl.
 Qed.
 
 Theorem assign_conforms_nostreams : forall h, nice h = true -> sh_folders h = [] ->
@@ -897,7 +953,7 @@ Proof.
   assert (Hn : sh_nums h = []).
   { destruct (sh_nums h); [reflexivity|]. rewrite Hf in *. unfold zlen in *. simpl in *. lia. }
   unfold spec_plans in *. rewrite Hn in *. simpl s_streams_of in *.
-  eexists. split; [reflexivity|]. apply nostreams_agree; [|exact HK].
+  eexists. split; [reflexivity|]. cbn [embed_nostreams h_emptyfiles]. apply nostreams_agree.
   destruct (filter is_data (sh_files h)); [reflexivity | discriminate HL].
 Qed.
 
@@ -951,31 +1007,64 @@ Theorem assign_negative_count_refuted :
   disagrees w_negative.
 Proof. vm_compute. repeat split; try reflexivity. eexists; split; reflexivity. Qed.
 
-(* (3) a directory (empty stream, EmptyFile bit clear) without attributes is taken for an empty file;
-   an empty file whose attributes carry the directory bit is taken for a directory;
-   a data entry whose attributes carry the directory bit is taken for a directory *)
+(* (3) the kind of an entry.  Since the repair of ArchiveFile.is_directory an entry without data is what its
+   EmptyFile bit says: a directory (bit clear) without attributes, or whose attribute word lacks the directory
+   bit, is a directory; an empty file (bit set) whose attribute word carries the directory bit is an empty file.
+   These headers satisfy `nice` and conform.  What remains necessary: a DATA entry whose attributes carry the
+   directory bit is still taken for a directory (its data is not delivered). *)
 Definition w_dir_noattr : sheader :=
   mkSHeader 0 [3] [None] [w_folder 3] [1] [3] [None] [w_data 97 32; w_dir 100 None] [false].
+Definition w_dir_attr_nobit : sheader :=
+  mkSHeader 0 [3] [None] [w_folder 3] [1] [3] [None]
+            [w_dir 100 (Some (Some 32)); w_data 97 32; w_dir 101 (Some None); w_dir 102 (Some (Some 16))] [false; false; false].
 Definition w_file_dirattr : sheader :=
   mkSHeader 0 [3] [None] [w_folder 3] [1] [3] [None] [w_data 97 32; w_dir 101 (Some (Some 16))] [true].
 Definition w_data_dirattr : sheader :=
   mkSHeader 0 [3] [None] [w_folder 3] [1] [3] [None] [w_data 97 48] [].
-Theorem assign_dir_without_attribute_refuted :
-  s_valid w_dir_noattr = true /\ nums_nonneg w_dir_noattr = true /\ kinds_consistent w_dir_noattr = false /\
-  map pl_kind (spec_plans w_dir_noattr) = [0; 2] /\
-  (exists ps, impl_plans (embed w_dir_noattr) = Ok ps /\ map ip_kind ps = [0; 1]) /\
-  disagrees w_dir_noattr.
-Proof. vm_compute. repeat split; try reflexivity. eexists; split; reflexivity. Qed.
-Theorem assign_kind_from_attribute_refuted :
-  (s_valid w_file_dirattr && nums_nonneg w_file_dirattr = true /\
-   map pl_kind (spec_plans w_file_dirattr) = [0; 1] /\
-   (exists ps, impl_plans (embed w_file_dirattr) = Ok ps /\ map ip_kind ps = [0; 2]) /\
-   disagrees w_file_dirattr) /\
-  (s_valid w_data_dirattr && nums_nonneg w_data_dirattr = true /\
-   map pl_kind (spec_plans w_data_dirattr) = [0] /\
-   (exists ps, impl_plans (embed w_data_dirattr) = Ok ps /\ map ip_kind ps = [2]) /\
-   disagrees w_data_dirattr).
+Theorem assign_dir_without_attribute_conforms :
+  (nice w_dir_noattr = true /\
+   map pl_kind (spec_plans w_dir_noattr) = [0; 2] /\
+   exists ps, impl_plans (embed w_dir_noattr) = Ok ps /\ map ip_kind ps = [0; 2] /\
+     plans_agree 0 (spec_plans w_dir_noattr) ps = true) /\
+  (nice w_dir_attr_nobit = true /\
+   map pl_kind (spec_plans w_dir_attr_nobit) = [2; 0; 2; 2] /\
+   exists ps, impl_plans (embed w_dir_attr_nobit) = Ok ps /\ map ip_kind ps = [2; 0; 2; 2] /\
+     plans_agree 0 (spec_plans w_dir_attr_nobit) ps = true).
+Proof. vm_compute. repeat split; try reflexivity; eexists; repeat split; reflexivity. Qed.
+Theorem assign_emptyfile_with_dir_attribute_conforms :
+  nice w_file_dirattr = true /\
+  map pl_kind (spec_plans w_file_dirattr) = [0; 1] /\
+  exists ps, impl_plans (embed w_file_dirattr) = Ok ps /\ map ip_kind ps = [0; 1] /\
+    plans_agree 0 (spec_plans w_file_dirattr) ps = true.
+Proof. vm_compute. repeat split; try reflexivity; eexists; repeat split; reflexivity. Qed.
+Theorem assign_data_with_dir_attribute_refuted :
+  s_valid w_data_dirattr && nums_nonneg w_data_dirattr = true /\ kinds_consistent w_data_dirattr = false /\
+  map pl_kind (spec_plans w_data_dirattr) = [0] /\
+  (exists ps, impl_plans (embed w_data_dirattr) = Ok ps /\ map ip_kind ps = [2]) /\
+  disagrees w_data_dirattr.
 Proof. vm_compute. repeat split; try reflexivity; eexists; split; reflexivity. Qed.
+
+(* the kind decision as it was before the repair -- from the attribute word alone, the EmptyFile vector never
+   consulted -- kept for the regression examples: on the first two headers above it took the directory without
+   attributes for an empty file and the empty file with the directory bit for a directory *)
+Definition kind_before_repair (e : fileent) : Z :=
+  if attr_is_dir (e_attr e) then 2 else if e_emptystream e then 1 else 0.
+Example assign_kind_before_repair_refuted :
+  (map kind_before_repair (sh_files w_dir_noattr) = [0; 1] /\ map pl_kind (spec_plans w_dir_noattr) = [0; 2]) /\
+  (map kind_before_repair (sh_files w_dir_attr_nobit) = [1; 0; 1; 2] /\
+   map pl_kind (spec_plans w_dir_attr_nobit) = [2; 0; 2; 2]) /\
+  (map kind_before_repair (sh_files w_file_dirattr) = [0; 2] /\ map pl_kind (spec_plans w_file_dirattr) = [0; 1]).
+Proof. vm_compute. repeat split; reflexivity. Qed.
+(* where the two decisions coincide: on every entry with data, and on an entry without data exactly when
+   "EmptyFile bit clear <-> attributes defined with the directory bit" -- the old clause of `nice` *)
+Lemma kind_before_repair_agrees e ef :
+  entry_kind e ef = kind_before_repair e <->
+  (e_emptystream e = true -> negb ef = attr_is_dir (e_attr e)).
+Proof.
+  unfold entry_kind, kind_before_repair.
+  destruct (e_emptystream e), ef, (attr_is_dir (e_attr e)); simpl; split; intros H; try reflexivity;
+    try discriminate H; try (intros; discriminate); try (specialize (H eq_refl); discriminate H).
+Qed.
 
 (* (4) no SubStreamsInfo.  `embed` always produces one; py7zr's own parser builds a graph WITHOUT one for a
    legal header that omits the section (the format then says: one sub-stream per folder, its size and CRC are the
